@@ -236,6 +236,32 @@ fn check_state<K: Kern<D>, const D: usize>(w: &World<K, D>, s: &Snap, ctx: &str,
         if g.iter().copied().collect::<BTreeSet<_>>() != *want || g.len() != want.len() {
             bad("cell_neighbors_mismatch", "cell_neighbors", format!("cell {:#x}: {:x?} vs {:x?}", ck, g, want), log);
         }
+        // slot-wise neighbour query: slot i is the cell across the facet opposite vertex i (None on the boundary)
+        {
+            let got: Vec<Option<u64>> = dt.tds().find_neighbors_by_key(k).iter().map(|o| o.map(ckey_u64)).collect();
+            match s.cells.iter().find(|c| c.key == *ck) {
+                Some(c) => {
+                    let mut want_slots: Vec<Option<u64>> = Vec::new();
+                    let mut unique = true;
+                    for i in 0..c.verts.len() {
+                        let facet: BTreeSet<u64> = c.verts.iter().enumerate().filter(|(j, _)| *j != i).map(|(_, v)| *v).collect();
+                        let others: Vec<u64> = s.cells.iter().filter(|o| o.key != c.key && facet.iter().all(|v| o.verts.contains(v))).map(|o| o.key).collect();
+                        if others.len() > 1 {
+                            unique = false;
+                        }
+                        want_slots.push(others.first().copied());
+                    }
+                    if unique && got != want_slots {
+                        bad("cell_neighbors_mismatch", "find_neighbors_by_key", format!("cell {:#x}: slots {:x?} but the facets opposite its vertices are shared with {:x?}", ck, got, want_slots), log);
+                    }
+                }
+                None => {
+                    if got.len() != D + 1 || got.iter().any(|o| o.is_some()) {
+                        bad("cell_neighbors_mismatch", "find_neighbors_by_key", format!("missing cell {:#x}: {:x?}", ck, got), log);
+                    }
+                }
+            }
+        }
         match (dt.cell_vertices(k), s.cells.iter().find(|c| c.key == *ck)) {
             (Some(vs), Some(c)) => {
                 if vs.iter().map(|&v| vkey_u64(v)).collect::<Vec<_>>() != c.verts {
@@ -410,7 +436,7 @@ pub fn meta() -> super::Meta {
     super::Meta {
         id: ID,
         level: "exploration",
-        rule: "stateful: start state (empty or constructed) + generated insert / remove / all flips / repair / clone / setter operations; after every state-changing step every query (edges, number_of_edges, incident_edges, adjacent_cells, cell_neighbors, cell_vertices, vertex_coords, facets, boundary_facets, number_of_boundary_facets, is_boundary_facet for every facet, the adjacency index and all *_with_index twins, count_simplices, euler_characteristic, count_boundary_simplices, classify_triangulation, expected_chi_for) is compared, for every live key plus missing/forged keys, with brute-force face enumeration of the stored cells; evaluations = query groups compared; non-trivial = final state with >= D+3 cells reached through >= 1 successful non-insert mutation; distinct by the whole case",
+        rule: "stateful: start state (empty or constructed) + generated insert / remove / all flips / repair / clone / setter operations; after every state-changing step every query (edges, number_of_edges, incident_edges, adjacent_cells, cell_neighbors, Tds::find_neighbors_by_key (slot by slot), cell_vertices, vertex_coords, facets, boundary_facets, number_of_boundary_facets, is_boundary_facet for every facet, the adjacency index and all *_with_index twins, count_simplices, euler_characteristic, count_boundary_simplices, classify_triangulation, expected_chi_for) is compared, for every live key plus missing/forged keys, with brute-force face enumeration of the stored cells; evaluations = query groups compared; non-trivial = final state with >= D+3 cells reached through >= 1 successful non-insert mutation; distinct by the whole case",
         assumptions: &[
             "only states whose independent L1/L2 check passes are compared (on a structurally broken complex 'the stored complex' is ambiguous)",
             "ball classification demanded only for states that pass the independent L3 check",
